@@ -406,6 +406,9 @@ func Step(d Doc, op *Op, r *Res, env Env) StepOut {
 				return unchanged(d, "body")
 			}
 			if r.Err != "" {
+				if strconv.FormatUint(v, 10) != d.Body {
+					return unchanged(d, "body") // digits but not a canonical decimal ("017"): unspecified
+				}
 				return fail([]string{"C01", "C03"}, "Incr failed with %s", r.Err)
 			}
 			if r.Val != v+op.Amt {
